@@ -60,7 +60,7 @@ CHECKS.update({
          'DESIGN.md 5.3, 6/C02'),
  'C10': (True, 'model_checking',
          'TLA+ specs NdnPit (envelope/reason parameters) and NdnFib (PIT-token echo) checked by TLC; covers and random schedules with envelopes built by an independent NDNLPv2 writer executed on both front-ends and validated by TLC; LP codec round trips against the strict reader',
-         'In NdnPit a packet has the same successor whatever envelope carries it (bare, LpPacket, LpPacket with optional and unknown headers), a Nack completes exactly the pending Interests with the same full name with precisely its reason, fragments are junk; in NdnFib every reply is an envelope carrying the Interest\'s token (bare without token). The real front-ends are driven with envelopes produced by the harness\' own writer: reasons 0 (also as an empty Nack header), 50, 150, 2^32+5, 2^64-1, tokens of length 0/1/8/32/33, fragmented envelopes around matching Data, several token-bearing Interests answered in any order, known NDNLPv2 headers (NextHopFaceId, CachePolicy, TxSequence, NonDiscovery) and a PIT token on received envelopes, Nack-headed envelopes around Data; reply envelopes must have the Fragment last; the recorded traces must be behaviours of the specs. Replies come in sizes 243..256 (the envelope's length crosses 253 while the fragment's does not), 65530..65540 and above 8.8 kB; a buffer handed to the face must not change afterwards (transports queue references).',
+         'In NdnPit a packet has the same successor whatever envelope carries it (bare, LpPacket, LpPacket with optional and unknown headers), a Nack completes exactly the pending Interests with the same full name with precisely its reason, fragments are junk; in NdnFib every reply is an envelope carrying the Interest\'s token (bare without token). The real front-ends are driven with envelopes produced by the harness\' own writer: reasons 0 (also as an empty Nack header), 50, 150, 2^32+5, 2^64-1, tokens of length 0/1/8/32/33, fragmented envelopes around matching Data, several token-bearing Interests answered in any order, known NDNLPv2 headers (NextHopFaceId, CachePolicy, TxSequence, NonDiscovery) and a PIT token on received envelopes, Nack-headed envelopes around Data; reply envelopes must have the Fragment last; the recorded traces must be behaviours of the specs. Replies come in sizes 243..256 (the length of the envelope crosses 253 while that of the fragment does not), 65530..65540 and above 8.8 kB; a buffer handed to the face must not change afterwards (transports queue references).',
          PIPE_NOTE + ' Token clause decided on appv2 only (the legacy front-end has no reply callback).',
          'DESIGN.md 5.1, 6/C10'),
  'C16': (True, 'model_checking',
